@@ -297,6 +297,36 @@ Qed.
 Lemma mkc_remove_keys vs m : mkc (remove_keys vs m) = without vs (mkc m).
 Proof. unfold remove_keys, without. apply (mkc_filter (fun k => negb (mem k vs))). Qed.
 
+Lemma resident_In m k : resident m k = true <-> In k (map ekey m).
+Proof.
+  unfold resident. rewrite existsb_exists, in_map_iff. split.
+  - intros [e [He Hk]]. apply N.eqb_eq in Hk. exists e. split; assumption.
+  - intros [e [Hk He]]. exists e. split; [exact He|apply N.eqb_eq; exact Hk].
+Qed.
+
+Lemma last_occurrence k : forall l : list kc, In k (keys l) ->
+  exists p1 c p2, l = p1 ++ (k, c) :: p2 /\ ~ In k (keys p2).
+Proof.
+  induction l as [|[k' c'] t IH]; cbn [keys map fst]; intros H; [contradiction|].
+  destruct (in_dec N.eq_dec k (keys t)) as [Hi|Hn].
+  - destruct (IH Hi) as [p1 [c [p2 [-> Hp]]]]. exists ((k', c') :: p1), c, p2. split; [reflexivity|exact Hp].
+  - destruct H as [->|H]; [|contradiction]. exists [], c', t. split; [reflexivity|exact Hn].
+Qed.
+
+Lemma filter_id {A} (P : A -> bool) l : (forall x, In x l -> P x = true) -> filter P l = l.
+Proof.
+  induction l as [|h t IH]; intros H; cbn [filter]; [reflexivity|].
+  rewrite (H h (or_introl eq_refl)). f_equal. apply IH. intros x Hx. apply H. right. exact Hx.
+Qed.
+
+(* what the victims actually take out of the map, and what stays, add up *)
+Lemma removed_cost_partition vs m :
+  total (mkc (remove_keys vs m)) + removed_cost vs m = total (mkc m).
+Proof.
+  unfold remove_keys, removed_cost. induction m as [|e t IH]; cbn [filter mkc map total sumN]; [lia|].
+  fold (mkc t). destruct (mem (ekey e) vs); cbn [negb mkc map total sumN]; fold (mkc (filter (fun e0 => negb (mem (ekey e0) vs)) t)); lia.
+Qed.
+
 (* ------------------------------------------------------------------------ *)
 (** one shard of a fully draining run_maintenance *)
 
@@ -312,6 +342,15 @@ Lemma maint_one_spec cp sh cost :
 Proof.
   intros [A1 A2 A3 A4] Hdr Hres HW. unfold maint_one.
   rewrite (firstn_all2 _ Hdr), (skipn_all2 _ Hdr).
+  (* every pending write is for a resident key (its last write describes the resident
+     entry), so the residency filter of fix 0a3449f drops nothing here *)
+  assert (Hres_all : filter (fun w => resident (sh_map sh) (fst w)) (sh_pend sh) = sh_pend sh).
+  { apply filter_id. intros [k c] Hx. cbn [fst]. apply resident_In.
+    assert (Hk : In k (keys (sh_pend sh))) by (apply in_map_iff; exists (k, c); split; [reflexivity|exact Hx]).
+    destruct (last_occurrence k _ Hk) as [p1 [c1 [p2 [Hs Hn]]]].
+    pose proof (A4 p1 k c1 p2 Hs Hn) as Hm. rewrite <- keys_mkc. apply in_map_iff.
+    exists (k, c1). split; [reflexivity|exact Hm]. }
+  rewrite Hres_all.
   set (pol1 := admit_all (sh_pend sh) (sh_pol sh)).
   assert (F1 : NoDup (keys pol1)) by (apply admit_all_NoDup; exact A2).
   assert (F2 : forall k c, In (k, c) pol1 -> In (k, c) (mkc (sh_map sh))).
@@ -359,8 +398,13 @@ Proof.
       assert (Hsum : total (without vs (mkc (sh_map sh))) + freed = res_cost sh).
       { rewrite Hv, Hf. apply total_without; [rewrite keys_mkc; exact A1|exact HVnd|exact HVm]. }
       assert (Hfle : freed <= cost) by lia.
+      (* the victims are resident with exactly the tracked costs: what is actually
+         removed (fix 496bcb6) is what the policy reported *)
+      assert (Hact : removed_cost vs (sh_map sh) = freed).
+      { pose proof (removed_cost_partition vs (sh_map sh)) as Hp. rewrite mkc_remove_keys in Hp.
+        unfold res_cost in Hsum. lia. }
       exists (mkSh (remove_keys vs (sh_map sh)) pol2 []), (cost - freed).
-      split; [rewrite (wsub_ok cost freed Hfle HW); reflexivity|].
+      split; [rewrite Hact, (wsub_ok cost freed Hfle HW); reflexivity|].
       assert (Hdisj : forall k, In k (keys pol2) -> ~ In k vs).
       { intros k Hk Hkv. apply (NoDup_app_disjoint _ _ k Hk12 Hk).
         rewrite keys_rev. apply -> in_rev. rewrite <- Hv. exact Hkv. }
